@@ -6,7 +6,9 @@ package main
 // reference names.
 
 import (
+	"fmt"
 	"go/ast"
+	"go/constant"
 	"go/token"
 	"go/types"
 	"strings"
@@ -14,8 +16,8 @@ import (
 
 type lexAliases struct {
 	holders map[string]bool
-	prefix map[string]string // "<window>." -> "<lexer>."
-	field  map[string]string // "<lexer>.text" -> "<lexer>.input"
+	prefix  map[string]string // "<window>." -> "<lexer>."
+	field   map[string]string // "<lexer>.text" -> "<lexer>.input"
 }
 
 func (c *Ctx) lexFieldAlias(fp string) string {
@@ -235,4 +237,157 @@ func (c *Ctx) lexMethodAliases() []string {
 		notes = append(notes, n.Obj().Name()+"."+f.Name()+" is taken as lexer."+f.Name()+" (a method of the lexer's window struct)")
 	}
 	return notes
+}
+
+// lexStateScheme: how the lexer's state machine names its states. In the reference tree a state is the function
+// itself (type stateFn func(*lexer) stateFn, nil = stop). When states are values of an integer type with a table
+// from state to step function, the table gives the same information: a returned constant stands for the function
+// the table holds for it, a constant without an entry for "stop".
+type lexStateScheme struct {
+	sig   *types.Signature       // signature of a state function
+	byVal map[string]*types.Func // enum scheme: constant value -> step function
+	enum  types.Type             // the state type (nil: function-valued states)
+}
+
+func (c *Ctx) lexStates() *lexStateScheme {
+	if c.memoTab == nil {
+		c.memoTab = map[string]any{}
+	}
+	if v, ok := c.memoTab["lexStates"]; ok {
+		s, _ := v.(*lexStateScheme)
+		return s
+	}
+	var out *lexStateScheme
+	defer func() { c.memoTab["lexStates"] = out }()
+	if st := namedType(c.Bcl, "stateFn"); st != nil {
+		if sig, ok := st.Underlying().(*types.Signature); ok {
+			out = &lexStateScheme{sig: sig}
+			return out
+		}
+	}
+	// a package-level table of func(*lexer) T, T a named integer type of the module
+	scope := c.Bcl.Types.Scope()
+	for _, name := range scope.Names() {
+		v, ok := scope.Lookup(name).(*types.Var)
+		if !ok {
+			continue
+		}
+		var elem types.Type
+		switch u := v.Type().Underlying().(type) {
+		case *types.Array:
+			elem = u.Elem()
+		case *types.Slice:
+			elem = u.Elem()
+		case *types.Map:
+			elem = u.Elem()
+		}
+		if elem == nil {
+			continue
+		}
+		sig, ok := elem.Underlying().(*types.Signature)
+		if !ok || sig.Recv() != nil || sig.Params().Len() != 1 || sig.Results().Len() != 1 || !isNamed(sig.Params().At(0).Type(), bclPath, "lexer") {
+			continue
+		}
+		rt, ok := sig.Results().At(0).Type().(*types.Named)
+		if !ok || rt.Obj().Pkg() == nil || rt.Obj().Pkg().Path() != bclPath {
+			continue
+		}
+		if b, ok := rt.Underlying().(*types.Basic); !ok || b.Info()&types.IsInteger == 0 {
+			continue
+		}
+		lit := c.tableLiteral(v)
+		if lit == nil {
+			continue
+		}
+		s := &lexStateScheme{sig: sig, byVal: map[string]*types.Func{}, enum: rt}
+		okAll := true
+		next := int64(0)
+		for _, el := range lit.Elts {
+			val := el
+			if kv, isKV := el.(*ast.KeyValueExpr); isKV {
+				k := c.constOf(kv.Key)
+				if k == nil {
+					okAll = false
+					break
+				}
+				if iv, ok := constant.Int64Val(k); ok {
+					next = iv
+				}
+				val = kv.Value
+			}
+			fn, _ := c.objOf(stripParens(val)).(*types.Func)
+			if fn == nil {
+				if id, isID := stripParens(val).(*ast.Ident); !isID || id.Name != "nil" {
+					okAll = false
+					break
+				}
+			} else {
+				s.byVal[fmt.Sprint(next)] = fn
+			}
+			next++
+		}
+		if okAll && len(s.byVal) > 0 {
+			out = s
+			c.AliasNotes = append(c.AliasNotes, fmt.Sprintf("lexer states are values of %s; the table %s maps them to their step functions", rt.Obj().Name(), name))
+			return out
+		}
+	}
+	return nil
+}
+
+// stateOfValue names the state a state function returns: the function's name, "nil" for stop, "?" when unknown.
+func (c *Ctx) stateOfValue(v Value) string {
+	s := c.lexStates()
+	switch {
+	case v.K == vFunc && v.FnObj != nil:
+		return funcName(v.FnObj)
+	case v.K == vTag && v.Tag == "nil":
+		return "nil"
+	case s != nil && s.enum != nil && v.K == vConst && v.C.Kind() == constant.Int:
+		if fn := s.byVal[v.C.ExactString()]; fn != nil {
+			return funcName(fn)
+		}
+		return "nil"
+	}
+	return "?"
+}
+
+// isStopState: e denotes "no next state" (nil, or a state constant the table has no step for).
+func (c *Ctx) isStopState(e ast.Expr) bool {
+	e = stripParens(e)
+	if id, ok := e.(*ast.Ident); ok && id.Name == "nil" {
+		return true
+	}
+	s := c.lexStates()
+	if s == nil || s.enum == nil {
+		return false
+	}
+	if t := c.typeOf(e); t == nil || !types.Identical(t, s.enum) {
+		return false
+	}
+	k := c.constOf(e)
+	return k != nil && k.Kind() == constant.Int && s.byVal[k.ExactString()] == nil
+}
+
+// stateFnOf: the state function e denotes (its name), "" when it denotes none.
+func (c *Ctx) stateFnOf(e ast.Expr, sf map[string]*ast.FuncDecl) string {
+	e = stripParens(e)
+	if id, ok := e.(*ast.Ident); ok {
+		if n := c.identFn(id); sf[n] != nil {
+			return n
+		}
+	}
+	s := c.lexStates()
+	if s == nil || s.enum == nil {
+		return ""
+	}
+	if t := c.typeOf(e); t == nil || !types.Identical(t, s.enum) {
+		return ""
+	}
+	if k := c.constOf(e); k != nil && k.Kind() == constant.Int {
+		if fn := s.byVal[k.ExactString()]; fn != nil && sf[funcName(fn)] != nil {
+			return funcName(fn)
+		}
+	}
+	return ""
 }
